@@ -269,3 +269,30 @@ brk("O03", ["C09", "C10"], "solve_brute.py", "        dense_vars=list(state_choi
     "dense axes in hash order")
 brk("O04", ["C10", "C17"], "state_space.py", "    _axis_names = [name for name in model.grids if name in subset]\n    _filter_names",
     "    _axis_names = sorted(subset)\n    _filter_names", "mask axes in alphabetical order")
+
+# ------------------------------------------------------------------------------ R1 / R11
+brk("I01", ["C12"], "ndimage.py", "from jax import Array, jit, lax\n", "from jax import Array, jit, lax, util\n", "removed JAX module imported again (D1)")
+brk("I02", ["C12"], "discrete_problem.py", "from jax.ops import segment_max\n", "from jax.ops import segment_max, segment_maximum\n", "import of a name that does not exist")
+brk("I03", ["C12"], "simulate.py", "out = {key: jnp.concatenate(values) for key, values in dict_of_lists.items()}",
+    "out = {key: jnp.concat_all(values) for key, values in dict_of_lists.items()}", "attribute that does not exist in jax.numpy")
+brk("S11a", ["C12"], "model_functions.py", "        relevant_functions = [\n            current_u_and_f,\n            next_state,\n            next_weights,\n            scalar_value_function,\n        ]",
+    "        relevant_functions = [\n            current_u_and_f,\n            next_weights,\n            scalar_value_function,\n        ]",
+    "transition arguments no longer part of u_and_f's signature: new failing classes")
+
+# ------------------------------------------------------------------------------ R12 guards
+brk("G01", ["C12"], "user_model.py", "    if model.n_periods < 1:", "    if model.n_periods < 0:", "n_periods = 0 accepted")
+brk("G02", ["C16", "C12"], "grids.py", "if valid_start_type and valid_stop_type and start >= stop:", "if valid_start_type and valid_stop_type and start > stop:",
+    "start == stop accepted")
+brk("G03", ["C16", "C12"], "grids.py", "if not isinstance(n_points, int) or n_points < 1:", "if not isinstance(n_points, int) or n_points < 0:", "n_points = 0 accepted")
+brk("G04", ["C12"], "user_model.py", '    if "utility" not in model.functions:', '    if "utility" not in model.functions and False:', "utility check disabled")
+brk("G05", ["C12"], "user_model.py", "    if states_and_choices_overlap:\n", "    if len(states_and_choices_overlap) > 1:\n", "single overlapping name accepted")
+brk("G07", ["C16", "C12"], "grids.py", "    if values != list(range(len(values))):", "    if sorted(values) != list(range(len(values))):", "codes compared after sorting")
+brk("G08", ["C16", "C12"], "grids.py", "    elif isinstance(start, float) and not math.isfinite(start):\n        error_messages.append(\"start must be finite\")\n", "",
+    "finiteness check of start removed")
+brk("G09", ["C16"], "grid_helpers.py", "    return jnp.linspace(start, stop, n_points)", "    return jnp.linspace(stop, start, n_points)", "linspace arguments swapped")
+brk("G10", ["C16", "C12"], "grids.py", "        if self.start <= 0:", "        if self.start < 0:", "log grid with start = 0 accepted")
+brk("G11", ["C12"], "input_processing/process_model.py", "                if params.get(name, False):\n                    raise ValueError(",
+    "                if params.get(name, False) and False:\n                    raise ValueError(", "filter-with-parameters guard disabled")
+keep("V09", ALL, [("grids.py", "if valid_start_type and valid_stop_type and start >= stop:", "if valid_start_type and valid_stop_type and stop <= start:", 1),
+                  ("grids.py", "if not isinstance(n_points, int) or n_points < 1:", "if not isinstance(n_points, int) or 1 > n_points:", 1)],
+     why="guards written with the operands swapped")
